@@ -105,7 +105,14 @@ def standard(ctx, spec):
 
     # 2. proofs
     props_file = spec["props_file"]
-    b = core.coq_build([props_file], timeout=_tier_val(spec.get("coq_timeout", 3000), tier))
+    # the model files the observers' cases are evaluated with are build targets too (they may lie outside the proofs' closure)
+    targets = [props_file] + spec.get("extra_props", [])
+    for ob in spec.get("observers", []):
+        for im in ob.get("imports", []):
+            f = im.replace(".", "/") + ".v"
+            if f not in targets and os.path.exists(os.path.join(core.COQ, f)):
+                targets.append(f)
+    b = core.coq_build(targets, timeout=_tier_val(spec.get("coq_timeout", 3000), tier))
     cov["obligations"] = b["obligations"]
     cov["discharged"] = b["discharged"]
     cov["checker_cmd"] = "make -k -j%d %so (coq_makefile project /verif/coq, coqc 8.16.1, full .vo build) + coqc Print Assumptions" % (core.NCPU, props_file)
